@@ -65,20 +65,18 @@ structure Target where
   llF32 : Nat
   llF64 : Nat
   llPtr : Nat
-  /-- natural C layout: a scalar is aligned to `min size cMaxAlign` (psABI of the target) -/
-  cMaxAlign : Nat
   deriving DecidableEq, Repr
 
 /-- x86_64: `e-m:e-…-i64:64-f80:128-n8:16:32:64-S128`, gc sizes {8,8} -/
-def amd64 : Target := ⟨8, true, 8, 8, 1, 2, 4, 8, 4, 8, 8, 8⟩
+def amd64 : Target := ⟨8, true, 8, 8, 1, 2, 4, 8, 4, 8, 8⟩
 /-- aarch64: `e-m:e-i8:8:32-i16:16:32-i64:64-i128:128-n32:64-S128`, gc sizes {8,8} -/
-def arm64 : Target := ⟨8, true, 8, 8, 1, 2, 4, 8, 4, 8, 8, 8⟩
+def arm64 : Target := ⟨8, true, 8, 8, 1, 2, 4, 8, 4, 8, 8⟩
 /-- i386: `e-m:e-p:32:32-…-f64:32:64-f80:32-n8:16:32-S128` (i64 keeps LLVM's default 32-bit ABI alignment), gc sizes {4,4} -/
-def i386 : Target := ⟨4, true, 4, 4, 1, 2, 4, 4, 4, 4, 4, 4⟩
+def i386 : Target := ⟨4, true, 4, 4, 1, 2, 4, 4, 4, 4, 4⟩
 /-- armv7 gnueabihf: `e-m:e-p:32:32-Fi8-i64:64-v128:64:128-a:0:32-n32-S64`, gc sizes {4,4} -/
-def arm : Target := ⟨4, true, 4, 4, 1, 2, 4, 8, 4, 8, 4, 8⟩
+def arm : Target := ⟨4, true, 4, 4, 1, 2, 4, 8, 4, 8, 4⟩
 /-- wasm32: `e-m:e-p:32:32-p10:8:8-p20:8:8-i64:64-n32:64-S128-ni:1:10:20`; build.go: `StdSizes{WordSize: 4, MaxAlign: 4}` -/
-def wasm : Target := ⟨4, false, 4, 4, 1, 2, 4, 8, 4, 8, 4, 8⟩
+def wasm : Target := ⟨4, false, 4, 4, 1, 2, 4, 8, 4, 8, 4⟩
 
 /-- Go's `align(x, a)` (`(x + a - 1) &^ (a - 1)`, `a` a power of two) and LLVM's `alignTo`. -/
 def alignUp (x a : Nat) : Nat := (x + a - 1) / a * a
@@ -374,12 +372,13 @@ def mapSizes (tg : Target) (k v : GoType) : Nat × Nat × Nat :=
 
 /-! ## where gc pads and LLVM does not -/
 
-/-- no zero-size last field at a non-zero offset (gc's "the last field of a non-zero-sized struct is not allowed to
-    have size 0") -/
-def tailOK (l : List (Nat × Nat)) : Bool := !(decide ((lastOS l 0).1 > 0) && (lastOS l 0).2 == 0)
+/-- gc's extra byte for a zero-size last field at a non-zero offset ("the last field of a non-zero-sized struct is
+    not allowed to have size 0") changes the size exactly when that offset is a multiple of the struct's alignment -/
+def tailOK (l : List (Nat × Nat)) : Bool :=
+  !(decide ((lastOS l 0).1 > 0) && (lastOS l 0).2 == 0 && (lastOS l 0).1 % maxAlignOf l == 0)
 
 mutual
-/-- no struct inside `t` (as far as the layout of `t` depends on it) has a padded zero-size tail -/
+/-- no struct inside `t` (as far as the layout of `t` depends on it) has a zero-size tail that gc pads -/
 def padFree (tg : Target) : GoType → Bool
   | .array _ e => padFree tg e
   | .struct fs => padFrees tg fs && tailOK (stdSAs tg fs)
@@ -389,6 +388,20 @@ def padFrees (tg : Target) : Fields → Bool
   | .nil => true
   | .cons t fs => padFree tg t && padFrees tg fs
 end
+
+/-! ## decidable target conditions -/
+
+/-- per basic kind the gc-style alignment equals the LLVM ABI alignment, the base sizes are gc's, a word is a pointer
+    (4 or 8 bytes) and no alignment exceeds it (so the bulk `extraSize` correction preserves every alignment) -/
+def wfTarget (tg : Target) : Bool :=
+  tg.gcStyle && tg.wordSize == tg.ptrSize && (tg.ptrSize == 4 || tg.ptrSize == 8) && tg.maxAlign == tg.ptrSize
+  && Basic.all.all (fun b => basicStdAlign tg b == (llBasic tg b).2)
+
+/-- per basic kind the descriptor table's alignment equals the LLVM ABI alignment -/
+def abiOK (tg : Target) : Bool := Basic.all.all (fun b => abiBasicAlign tg b == (llBasic tg b).2)
+
+/-- the only two shapes a well-formed target can have -/
+def gcTarget (p : Nat) : Target := ⟨p, true, p, p, 1, 2, 4, min 8 p, 4, min 8 p, p⟩
 
 /-! ## natural C layout for C-compatible types -/
 
@@ -407,15 +420,16 @@ def isCs : Fields → Bool
   | .cons t fs => isC t && isCs fs
 end
 
-/-- `sizeof`/`_Alignof` of the C scalar: alignment is the size of the (component) scalar, capped by the psABI -/
-def cBasic (tg : Target) : Basic → Nat × Nat
+/-- `sizeof`/`_Alignof` of the C scalar: natural alignment = size of the (component) scalar, capped by the psABI's
+    largest scalar alignment `cmax` (8 on x86-64, AArch64, ARM EABI, wasm32; 4 on i386 System V) -/
+def cBasic (tg : Target) (cmax : Nat) : Basic → Nat × Nat
   | .bool | .int8 | .uint8 => (1, 1)
-  | .int16 | .uint16 => (2, min 2 tg.cMaxAlign)
-  | .int32 | .uint32 | .float32 => (4, min 4 tg.cMaxAlign)
-  | .int64 | .uint64 | .float64 => (8, min 8 tg.cMaxAlign)
-  | .complex64 => (8, min 4 tg.cMaxAlign)
-  | .complex128 => (16, min 8 tg.cMaxAlign)
-  | .int | .uint | .uintptr | .unsafePointer | .string => (tg.ptrSize, min tg.ptrSize tg.cMaxAlign)
+  | .int16 | .uint16 => (2, min 2 cmax)
+  | .int32 | .uint32 | .float32 => (4, min 4 cmax)
+  | .int64 | .uint64 | .float64 => (8, min 8 cmax)
+  | .complex64 => (8, min 4 cmax)
+  | .complex128 => (16, min 8 cmax)
+  | .int | .uint | .uintptr | .unsafePointer | .string => (tg.ptrSize, min tg.ptrSize cmax)
 
 /-- C member placement written with explicit padding: a member goes to the lowest offset `≥ cur` that is a multiple
     of its alignment; returns the member offsets -/
@@ -431,23 +445,33 @@ def cEnd : List (Nat × Nat) → Nat → Nat
 
 mutual
 /-- (`sizeof`, `_Alignof`) in the natural C layout -/
-def cSA (tg : Target) : GoType → Nat × Nat
-  | .basic b => cBasic tg b
-  | .pointer _ => (tg.ptrSize, min tg.ptrSize tg.cMaxAlign)
-  | .array n e => (n * (cSA tg e).1, (cSA tg e).2)
+def cSA (tg : Target) (cmax : Nat) : GoType → Nat × Nat
+  | .basic b => cBasic tg cmax b
+  | .pointer _ => (tg.ptrSize, min tg.ptrSize cmax)
+  | .array n e => (n * (cSA tg cmax e).1, (cSA tg cmax e).2)
   | .struct fs =>
-      let l := cSAs tg fs
+      let l := cSAs tg cmax fs
       let e := cEnd l 0
       let a := maxAlignOf l
       (e + (a - e % a) % a, a)
-  | .named t => cSA tg t
+  | .named t => cSA tg cmax t
   | _ => (0, 1)
-def cSAs (tg : Target) : Fields → List (Nat × Nat)
+def cSAs (tg : Target) (cmax : Nat) : Fields → List (Nat × Nat)
   | .nil => []
-  | .cons t fs => cSA tg t :: cSAs tg fs
+  | .cons t fs => cSA tg cmax t :: cSAs tg cmax fs
 end
 
-def cLayout (tg : Target) (t : GoType) : Layout :=
-  ⟨(cSA tg t).1, (cSA tg t).2, match under t with | .struct fs => cPlace (cSAs tg fs) 0 | _ => []⟩
+def cOffsets (tg : Target) (cmax : Nat) (t : GoType) : List Nat :=
+  match under t with
+  | .struct fs => cPlace (cSAs tg cmax fs) 0
+  | _ => []
+
+def cLayout (tg : Target) (cmax : Nat) (t : GoType) : Layout :=
+  ⟨(cSA tg cmax t).1, (cSA tg cmax t).2, cOffsets tg cmax t⟩
+
+/-- per C scalar the natural alignment and size equal LLVM's -/
+def wfC (tg : Target) (cmax : Nat) : Bool :=
+  decide (0 < cmax) && decide (0 < tg.ptrSize) &&
+  Basic.all.all (fun b => b == .string || cBasic tg cmax b == llBasic tg b)
 
 end LlgoVerif.Layout
